@@ -100,8 +100,10 @@ def host_labels(host):
     for lbl in host.split("."):
         low = lbl.lower()
         if low.startswith("xn--"):
+            # IDNA ToUnicode: a label that is valid punycode but not a canonical A-label ('xn--example-') is NOT another spelling of
+            # 'example' and must stay as it is; the stdlib idna codec implements that check (raw punycode decoding would not)
             try:
-                low = low[4:].encode("ascii").decode("punycode").lower()
+                low = low.encode("ascii").decode("idna").lower()
             except (UnicodeError, ValueError):
                 pass
         out.append(low)
